@@ -25,16 +25,18 @@ namespace simproc {
 static std::vector<Child*> children;
 static int nextPid = 4000;
 static size_t pipeCap = 65536;
+static bool stdinReadable = false;   // configuration: the parent's own descriptor 0 is readable (/dev/null, a file, a closed pipe - as under cron or CI) or idle (a terminal)
 static void (*childMain)(Child*) = 0;
 static Child* inVfork[80];          // per task: the child whose pre-exec code this task is currently executing
 static uint64_t vforkCtx[80][8];
 
 static char** savedEnviron = 0;   /* the real process environment: restored at the start of every run (code running between vfork and exec shares the parent's memory and may change it) */
-static void resetProc() { if (!savedEnviron) savedEnviron = environ; environ = savedEnviron; for (Child* c : children) delete c; children.clear(); nextPid = 4000; pipeCap = 65536; childMain = 0; memset(inVfork, 0, sizeof inVfork); }
+static void resetProc() { if (!savedEnviron) savedEnviron = environ; environ = savedEnviron; for (Child* c : children) delete c; children.clear(); nextPid = 4000; pipeCap = 65536; stdinReadable = false; childMain = 0; memset(inVfork, 0, sizeof inVfork); }
 static void restoreEnviron() { if (savedEnviron) environ = savedEnviron; }
 static struct Reg { Reg() { addResetHook(resetProc); addEndHook(restoreEnviron); } } reg;
 
 void setPipeCapacity(size_t n) { pipeCap = n ? n : 1; }
+void setStdinReadable(bool r) { stdinReadable = r; }
 void setChildMain(void (*fn)(Child*)) { childMain = fn; }
 const std::vector<Child*>& allChildren() { return children; }
 Child* findChild(int pid) { for (Child* c : children) if (c->pid == pid) return c; return 0; }
@@ -154,7 +156,7 @@ int __wrap_select(int nfds, fd_set* rd, fd_set* wr, fd_set* ex, struct timeval* 
   int64_t deadline = tv ? nowNs() + (int64_t)tv->tv_sec * 1000000000LL + (int64_t)tv->tv_usec * 1000LL : -1;
   for (;;) {
     fd_set out; FD_ZERO(&out); int n = 0;
-    if (rd) for (int fd = 0; fd < nfds; ++fd) if (FD_ISSET(fd, rd)) { File* f = lookup(fd); if (f && (readiness(f, 0x001 /*EPOLLIN*/) || f->peerClosed)) { FD_SET(fd, &out); n++; } }
+    if (rd) for (int fd = 0; fd < nfds; ++fd) if (FD_ISSET(fd, rd)) { File* f = lookup(fd); if (f && (readiness(f, 0x001 /*EPOLLIN*/) || f->peerClosed)) { FD_SET(fd, &out); n++; } else if (!f && fd == 0 && stdinReadable) { FD_SET(fd, &out); n++; probe("select_reported_own_stdin"); } }
     if (n) { *rd = out; if (wr) FD_ZERO(wr); if (ex) FD_ZERO(ex); if (tv) { int64_t left = deadline - nowNs(); if (left < 0) left = 0; tv->tv_sec = left / 1000000000LL; tv->tv_usec = (left % 1000000000LL) / 1000; } logEvent("select", n); return n; }
     if (tv && nowNs() >= deadline) { if (rd) FD_ZERO(rd); if (wr) FD_ZERO(wr); if (ex) FD_ZERO(ex); tv->tv_sec = 0; tv->tv_usec = 0; logEvent("select_timeout"); probe("select_timed_out"); return 0; }   // Linux: sets cleared, timeout updated to 0
     netBlock("select", deadline);
